@@ -433,6 +433,50 @@ def c03_fragmenter(inputs, doc):
     return None
 
 
+def c03_get_next_fragment(inputs, doc):
+    """Drive the REAL get_next_fragment of a real frame until exhausted and measure every fragment on the wire.
+    (metadata-bearing fragments are allowed the 3 bytes of the open known finding; data-only ones are not)"""
+    import re
+    import rsocket.frame as F
+    cname = re.search(r'\[(\w+)\]', doc['harness']).group(1)
+    d0, m0 = inputs.get('data'), inputs.get('metadata')
+    fs0 = inputs.get('fs')
+    lh0 = inputs.get('requires_length_header', True)
+    hdr = 10 if cname in ('RequestStreamFrame', 'RequestChannelFrame') else 6
+    cands = []
+    if isinstance(fs0, int) and 64 <= fs0 <= 100000 and len(d0 or b'') < 10 ** 6 and len(m0 or b'') < 10 ** 6:
+        cands.append((d0, m0, fs0, bool(lh0)))
+    for fs in (64, 65, 70):
+        for lh in (True, False):
+            B1 = fs - hdr - (3 if lh else 0)
+            for dl in range(max(0, B1 - 6), B1 + 8):
+                cands.append((bytes((i * 7) % 256 for i in range(dl)), None, fs, lh))
+                cands.append((bytes((i * 7) % 256 for i in range(max(0, dl - 10))), bytes(range(7)), fs, lh))
+    for d, m, fs, lh in cands:
+        fr = getattr(F, cname)()
+        fr.stream_id = 5
+        fr.data, fr.metadata = d, m
+        fr.fragment_size_bytes = fs
+        if hdr == 10:
+            fr.initial_request_n = 3
+        out = []
+        for _ in range(10000):
+            x = fr.get_next_fragment(lh)
+            if x is None:
+                break
+            out.append(x)
+        for i, x in enumerate(out):
+            n = len(x.serialize()) + (3 if lh else 0)
+            allowed = fs + (3 if x.metadata else 0)
+            if n > allowed:
+                return dict(frame=cname, data_len=len(d or b''), metadata_len=len(m or b''), fragment_size=fs, length_header=lh,
+                            fragment_index=i, fragments=len(out), wire_length=n, problem='fragment longer on the wire than the configured size')
+        if b''.join((x.data or b'') for x in out) != (d or b'') or b''.join((x.metadata or b'') for x in out) != (m or b''):
+            return dict(frame=cname, data_len=len(d or b''), metadata_len=len(m or b''), fragment_size=fs, length_header=lh,
+                        problem='fragments do not concatenate to the payload')
+    return None
+
+
 def c03_cache(inputs, doc):
     """End-to-end: fragment a real frame of every fragmentable type with the real code and reassemble it with the real cache."""
     import rsocket.frame as F
@@ -674,4 +718,56 @@ def c05_emit(inputs, doc):
                                 last_frame_queued_during_write_number=when,
                                 wire=['%s(stream %d%s)' % (type(f).__name__, f.stream_id, ', follows' if getattr(f, 'flags_follows', False) else '')
                                       for f in wire], stream=sid, source_order_on_wire=seen)
+    return None
+
+
+def c14_history(inputs, doc):
+    """Drive a REAL endpoint through send_request / handle_lease (public operations only) and compare with the lease rules."""
+    import asyncio
+    import re
+    from datetime import timedelta
+    import rsocket.frame as F
+    from rsocket.rsocket_client import RSocketClient
+    m = re.search(r'requests=(\d+),queue_size=(\d+)', doc['harness'])
+    ks = [int(m.group(1))] if m else [1, 2, 4]
+    sizes = [int(m.group(2))] if m else [0, 1, 3]
+    classes = [F.RequestResponseFrame, F.RequestStreamFrame, F.RequestChannelFrame, F.RequestFireAndForgetFrame]
+
+    async def scenario(k, qsize, granted, ttl_ms):
+        c = RSocketClient.__new__(RSocketClient)
+        c._honor_lease = True
+        c._request_queue_size = qsize
+        c._fragment_size_bytes = None
+        c._reset_internals()
+        wire = []
+        c.send_frame = lambda f: wire.append(f)
+        reqs, accepted = [], []
+        for i in range(k):
+            f = classes[i % 4]()
+            f.stream_id = 2 * i + 1
+            reqs.append(f)
+            try:
+                c.send_request(f)
+                accepted.append(f)
+            except asyncio.QueueFull:
+                pass
+        if wire:
+            return 'a request was sent before the first LEASE'
+        want = reqs[:qsize] if qsize > 0 else reqs
+        if [id(x) for x in accepted] != [id(x) for x in want]:
+            return 'accepted requests %r, expected the first %d' % ([x.stream_id for x in accepted], len(want))
+        lf = F.LeaseFrame()
+        lf.number_of_requests = granted
+        lf.time_to_live = ttl_ms
+        await c.handle_lease(lf)
+        exp = accepted[:min(granted, len(accepted))]
+        if [id(x) for x in wire] != [id(x) for x in exp]:
+            return 'after LEASE(%d): streams on the wire %r, expected %r' % (granted, [x.stream_id for x in wire], [x.stream_id for x in exp])
+        return None
+    for k in ks:
+        for qsize in sizes:
+            for granted in (0, 1, 2, 3, 5, 100):
+                bad = asyncio.run(scenario(k, qsize, granted, 60000))
+                if bad:
+                    return dict(requests_before_first_lease=k, request_queue_size=qsize, granted=granted, problem=bad)
     return None
